@@ -4,6 +4,7 @@ import (
 	"encoding/xml"
 	"fmt"
 	"io"
+	"math/big"
 	"regexp"
 	"sort"
 	"strconv"
@@ -265,21 +266,29 @@ func (d *TTMLInDuration) UnmarshalText(i []byte) (err error) {
 	// Check offset time
 	text := string(i)
 	if matches := ttmlRegexpOffsetTime.FindStringSubmatch(text); matches != nil {
-		// Parse value
-		var value float64
-		if value, err = strconv.ParseFloat(matches[1], 64); err != nil {
-			err = fmt.Errorf("astisub: failed to parse value %s", matches[1])
-			return
+		// Split the value into its integer and fractional digits
+		integer, fraction := matches[1], ""
+		if len(matches[2]) > 0 {
+			integer = matches[1][:len(matches[1])-len(matches[2])]
+			fraction = matches[2][1:]
 		}
 
 		// Parse metric
 		metric := matches[3]
 
 		// Update duration
-		if metric == "t" {
-			d.ticks = int(value)
-		} else if metric == "f" {
-			d.frames = int(value)
+		if metric == "t" || metric == "f" {
+			// Ticks and frames are whole numbers
+			var value int
+			if value, err = strconv.Atoi(integer); err != nil {
+				err = fmt.Errorf("astisub: atoi %s failed: %w", integer, err)
+				return
+			}
+			if metric == "t" {
+				d.ticks = value
+			} else {
+				d.frames = value
+			}
 		} else {
 			// Get timebase
 			var timebase time.Duration
@@ -298,7 +307,9 @@ func (d *TTMLInDuration) UnmarshalText(i []byte) (err error) {
 			}
 
 			// Update duration
-			d.d = time.Duration(value * float64(timebase.Nanoseconds()))
+			if d.d, err = ttmlOffsetDuration(integer, fraction, timebase); err != nil {
+				return
+			}
 		}
 		return
 	}
@@ -319,6 +330,21 @@ func (d *TTMLInDuration) UnmarshalText(i []byte) (err error) {
 
 	d.d, err = parseDuration(text, ".", 3)
 	return
+}
+
+// ttmlOffsetDuration returns <integer>.<fraction> x timebase truncated to the nanosecond. The decimal is
+// evaluated exactly: going through a float64 would turn "1.001s" into 1000999999ns
+func ttmlOffsetDuration(integer, fraction string, timebase time.Duration) (time.Duration, error) {
+	v, ok := new(big.Int).SetString(integer+fraction, 10)
+	if !ok {
+		return 0, fmt.Errorf("astisub: failed to parse value %s.%s", integer, fraction)
+	}
+	v.Mul(v, big.NewInt(int64(timebase)))
+	v.Quo(v, new(big.Int).Exp(big.NewInt(10), big.NewInt(int64(len(fraction))), nil))
+	if !v.IsInt64() {
+		return 0, fmt.Errorf("astisub: value %s.%s is too big", integer, fraction)
+	}
+	return time.Duration(v.Int64()), nil
 }
 
 // duration returns the input TTML Duration's time.Duration
